@@ -78,7 +78,7 @@ PROPS["C05"] = dict(jobs=None, obl=None, bounded="c05", level="other", design="4
 PROPS["C06"] = dict(jobs=None, obl=None, bounded="c06", level="other", design="4 C05/C06",
                     technique="bounded stand-in: first-hour simulation vs really applying the changes on a twin system; no simulated hour before the date; twins paired both ways; bad dates refused")
 
-PROPS["C08"] = dict(jobs=ANY, obl=lambda o: any(x in o["name"] for x in ("recorded ancestors", "_parent recorded")), bounded="c08", level="other", design="4 C08",
+PROPS["C08"] = dict(jobs=ANY, obl=lambda o: any(x in o["name"] for x in ("recorded ancestors", "_parent recorded", "completeness")), bounded="c08", level="other", design="4 C08",
                     technique="P: every operator / helper contract pins the parents recorded on its result and the recorded-ancestor set (what the dependency edges are built from); B: graph consistency (both ends, held values only, acyclic) as built / after edits / after simulations and toggles; completeness by perturbing every quantity input and rebuilding; update order of every input")
 
 PROPS["C11"] = dict(jobs=None, obl=None, bounded="c11", level="other", design="4 C11",
@@ -89,7 +89,7 @@ PROPS["C20"] = dict(jobs=None, obl=None, bounded="c20", level="other", design="4
 PROPS["C13"] = dict(jobs=None, obl=None, bounded="c13", level="other", design="4 C13",
                     technique="bounded stand-in: whole-system JSON round trips (through text) of core topologies, edit histories and a system with every builder class: ids, classes, links, labels, sources, inputs, recomputed results, re-export equality, liveness, previous-major-version file")
 
-PROPS["C17"] = dict(jobs=None, obl=None, bounded="c17", level="other", design="4 C17",
-                    technique="bounded stand-in: builder systems over every resolution / technology / model-parameter kind / sampled instance types: derived parameters vs the stated rules recomputed independently, footprints vs the plain twin model, refresh after every builder-input change vs a fresh build")
+PROPS["C17"] = dict(jobs=upd("VideoStreamingJob", "GPUServer", "GenAI", "update_occupied_"), obl=ALL_OBL, bounded="c17", level="other", design="4 C17",
+                    technique="P: contracts on the derived-parameter rules of VideoStreamingJob (all 7 resolutions), GenAIJob, GenAIModel, GPUServer and on the server's occupied resources (service base consumption added), incl. completeness of recorded ancestors (refresh); B: builder systems over every resolution / technology / model-parameter kind / sampled instance types: derived parameters vs the stated rules recomputed independently, footprints vs the plain twin model, refresh after every builder-input change vs a fresh build")
 
 NOT_BUILT = {}
